@@ -15,7 +15,235 @@ use std::sync::atomic::Ordering;
 
 const CHECKS: Checks = Checks { c01: false, c02: false, c12: true, c17: false };
 
+// ------------------------------------------------------------------------------------------------
+// Heavy patterns: expressions whose compiled program is large (counted repetition of a big Unicode class).
+// The on-the-fly path and the warm-up path must build the SAME regex (same size limits, same flags).
+
+pub const HEAVY_EXPRS: &[&str] = &[r"[\p{L}\p{N}]{1,40}", r"\w{1,30}", r"[\p{L}]{2,24}-[\p{N}]{1,12}"];
+pub const HEAVY_HAYS: &[&str] = &["/u/jane42", "/u/jane42/x", "/u/", "/U/JANE42", "/u/élan-7", "/u/jane-42/x"];
+
+/// one (expression, unique, ignore_case, limit, level) point: find on a never-warmed tree vs after cache(limit, level)
+pub fn heavy_tree_point(expr: &str, unique: bool, ignore_case: bool, limit: u64, level: Option<u64>) -> Vec<(String, String)> {
+    use redirectionio::regex_radix_tree::{RegexTreeMap, UniqueRegexTreeMap};
+    let pats = [format!("/u/(?:{expr})"), format!("/u/(?:{expr})/x")];
+    let mut out = Vec::new();
+    let find_all = |f: &dyn Fn(&str) -> Vec<String>| -> Vec<Vec<String>> { HEAVY_HAYS.iter().map(|h| { let mut v = f(h); v.sort(); v }).collect() };
+    let want: Vec<Vec<String>> = HEAVY_HAYS
+        .iter()
+        .map(|h| {
+            let mut v: Vec<String> = pats
+                .iter()
+                .filter(|p| regex::RegexBuilder::new(&format!("^(?:{p})$")).case_insensitive(ignore_case).build().map(|r| r.is_match(h)).unwrap_or(false))
+                .cloned()
+                .collect();
+            v.sort();
+            v
+        })
+        .collect();
+    let (cold, warm) = if unique {
+        let mut t = UniqueRegexTreeMap::new(ignore_case);
+        for p in &pats {
+            t.insert(p, p.clone());
+        }
+        let cold = find_all(&|h| t.find(h).into_iter().cloned().collect());
+        t.cache(limit, level);
+        let warm = find_all(&|h| t.find(h).into_iter().cloned().collect());
+        (cold, warm)
+    } else {
+        let mut t = RegexTreeMap::new(ignore_case);
+        for p in &pats {
+            t.insert(p, "id", p.clone());
+        }
+        let cold = find_all(&|h| t.find(h).into_iter().cloned().collect());
+        t.cache(limit, level);
+        let warm = find_all(&|h| t.find(h).into_iter().cloned().collect());
+        (cold, warm)
+    };
+    if cold != warm {
+        out.push((format!("heavy-pattern:tree-cache-changes-find:expr={expr}"), format!("patterns {pats:?} unique={unique} ignore_case={ignore_case}: find over {HEAVY_HAYS:?} before cache({limit}, {level:?}) = {cold:?}, after = {warm:?}")));
+    }
+    if cold != want {
+        out.push((format!("heavy-pattern:uncached-find-differs-from-linear-scan:expr={expr}"), format!("patterns {pats:?} unique={unique} ignore_case={ignore_case}: never-warmed find = {cold:?}, linear scan = {want:?}")));
+    }
+    out
+}
+
+/// router with one rule whose marker is a heavy expression: match ids, Location and trace before / after cache(n)
+pub fn heavy_router_point(expr: &str, ignore_case: bool, limit: Option<u64>) -> Vec<(String, String)> {
+    use redirectionio::action::Action;
+    use redirectionio::api::Rule;
+    use redirectionio::http::Request;
+    use redirectionio::router::Router;
+    let mut rc = redirectionio::RouterConfig::default();
+    rc.ignore_path_and_query_case = ignore_case;
+    let rule: Rule = serde_json::from_value(json!({
+        "id": "heavy", "source": {"scheme": null, "host": null, "ips": null, "path": "/u/@slug", "query": null, "headers": null, "methods": null, "exclude_methods": null,
+            "response_status_codes": null, "exclude_response_status_codes": null, "sampling": null},
+        "target": "/to/@slug", "status_code": 301, "rank": 1, "markers": [{"name": "slug", "regex": expr, "transformers": []}],
+        "body_filters": null, "header_filters": null, "log_override": null, "reset": null, "stop": null, "examples": null,
+        "redirect_unit_id": null, "configuration_log_unit_id": null, "configuration_reset_unit_id": null, "target_hash": null
+    }))
+    .expect("heavy rule");
+    let mut router = Router::<Rule>::from_config(rc.clone());
+    router.insert(rule);
+    let observe = |r: &Router<Rule>| -> Vec<String> {
+        HEAVY_HAYS
+            .iter()
+            .map(|h| {
+                let mut q = Request::from_config(&rc, h.to_string(), Some("h.example".into()), Some("https".into()), None, None, None);
+                q.created_at = None;
+                let m = r.match_request(&q);
+                let ids: Vec<String> = m.iter().map(|x| x.id().to_string()).collect();
+                let mut a = Action::from_routes_rule(m, &q, None);
+                let loc = a.filter_headers(vec![], 0, false, None).into_iter().find(|x| x.name == "Location").map(|x| x.value).unwrap_or_default();
+                let traced = redirectionio::router::Trace::<Rule>::get_routes_from_traces(&r.trace_request(&q)).len();
+                format!("{ids:?}|{loc}|traced={traced}")
+            })
+            .collect()
+    };
+    let cold = observe(&router);
+    router.cache(limit);
+    let warm = observe(&router);
+    let mut out = Vec::new();
+    if cold != warm {
+        out.push((format!("heavy-pattern:router-cache-changes-answers:expr={expr}"), format!("rule /u/@slug with slug={expr:?}, ignore_case={ignore_case}: observations over {HEAVY_HAYS:?} before cache({limit:?}) = {cold:?}, after = {warm:?}")));
+    }
+    out
+}
+
+// ------------------------------------------------------------------------------------------------
+// Twin routers: two routers that differ ONLY in ignore_path_and_query_case hold the same marker rule and run
+// the same script (insert, match, warm-up, match); every interleaving of the two scripts runs on a thread of
+// its own. Each router's answers must be those of its own configuration whatever the other router did.
+
+pub fn twin_router_run(order: &[usize]) -> Vec<(String, String)> {
+    use redirectionio::api::Rule;
+    use redirectionio::http::Request;
+    use redirectionio::router::Router;
+    let modes = [false, true];
+    let rcs: Vec<redirectionio::RouterConfig> = modes
+        .iter()
+        .map(|m| {
+            let mut rc = redirectionio::RouterConfig::default();
+            rc.ignore_path_and_query_case = *m;
+            rc
+        })
+        .collect();
+    let mk = |id: &str, path: &str| -> Rule {
+        serde_json::from_value(json!({
+            "id": id, "source": {"scheme": null, "host": null, "ips": null, "path": path, "query": null, "headers": null, "methods": null, "exclude_methods": null,
+                "response_status_codes": null, "exclude_response_status_codes": null, "sampling": null},
+            "target": "/to/@id", "status_code": 301, "rank": 1, "markers": [{"name": "id", "regex": "[0-9]+", "transformers": []}],
+            "body_filters": null, "header_filters": null, "log_override": null, "reset": null, "stop": null, "examples": null,
+            "redirect_unit_id": null, "configuration_log_unit_id": null, "configuration_reset_unit_id": null, "target_hash": null
+        }))
+        .expect("twin rule")
+    };
+    let rules = [mk("cat", "/Catalog/@id"), mk("cat-edit", "/Catalog/@id/edit")];
+    let pats = [r"^/Catalog/(?:[0-9]+)$", r"^/Catalog/(?:[0-9]+)/edit$"];
+    let probes = ["/Catalog/7", "/catalog/7", "/CATALOG/7/EDIT", "/Catalog/7/edit", "/Catalog/x"];
+    let mut routers: Vec<Router<Rule>> = rcs.iter().map(|rc| Router::<Rule>::from_config(rc.clone())).collect();
+    let mut pos = [0usize; 2];
+    let mut out = Vec::new();
+    for (step, &w) in order.iter().enumerate() {
+        match c08::TWIN_SCRIPT[pos[w]] {
+            "insert" => {
+                for r in &rules {
+                    routers[w].insert(r.clone());
+                }
+            }
+            "cache" => {
+                routers[w].cache(None);
+            }
+            _ => {
+                for p in probes {
+                    let mut q = Request::from_config(&rcs[w], p.to_string(), Some("h.example".into()), Some("https".into()), None, None, None);
+                    q.created_at = None;
+                    let mut got: Vec<String> = routers[w].match_request(&q).iter().map(|x| x.id().to_string()).collect();
+                    got.sort();
+                    let mut want: Vec<String> = Vec::new();
+                    for (i, pat) in pats.iter().enumerate() {
+                        if regex::RegexBuilder::new(pat).case_insensitive(modes[w]).build().unwrap().is_match(p) {
+                            want.push(rules[i].id.clone());
+                        }
+                    }
+                    want.sort();
+                    if got != want {
+                        out.push((
+                            "twin-routers:answers-depend-on-the-other-router".to_string(),
+                            format!("two routers (ignore_path_and_query_case=false / true) holding /Catalog/@id and /Catalog/@id/edit; per-router script {:?} interleaved as {order:?}: at step {step} the ignore_case={} router matches {got:?} for {p:?}, its own configuration gives {want:?}", c08::TWIN_SCRIPT, modes[w]),
+                        ));
+                        return out;
+                    }
+                }
+            }
+        }
+        pos[w] += 1;
+    }
+    out
+}
+
+fn on_own_thread<T: Send>(f: impl FnOnce() -> T + Send) -> Result<T, (String, String)> {
+    match std::thread::scope(|s| s.spawn(|| crate::common::guarded(f)).join()) {
+        Ok(r) => r,
+        Err(_) => Err(("?".into(), "thread died".into())),
+    }
+}
+
+/// heavy patterns + twin routers; returns the number of points executed
+pub fn extra_passes(ctx: &Ctx) -> (u64, u64) {
+    use crate::common::Violation;
+    let mut points: Vec<Value> = Vec::new();
+    for expr in HEAVY_EXPRS {
+        for (unique, ic) in [(false, false), (false, true), (true, false)] {
+            for limit in [1u64, 8] {
+                for level in [None, Some(0u64)] {
+                    points.push(json!({"heavy_tree": {"expr": expr, "unique": unique, "ignore_case": ic, "limit": limit, "level": level}}));
+                }
+            }
+        }
+        for ic in [false, true] {
+            for limit in [None, Some(1u64)] {
+                points.push(json!({"heavy_router": {"expr": expr, "ignore_case": ic, "limit": limit}}));
+            }
+        }
+    }
+    let heavy = points.len() as u64;
+    for order in c08::interleavings(c08::TWIN_SCRIPT.len()) {
+        points.push(json!({"twin_routers": {"order": order}}));
+    }
+    crate::common::par_range(ctx.threads, points.len(), |i| {
+        for (sig, what) in replay_extra(&points[i]) {
+            ctx.report(Violation { signature: sig, what, case: points[i].clone(), weight: 1 });
+        }
+    });
+    (heavy, points.len() as u64 - heavy)
+}
+
+pub fn replay_extra(case: &Value) -> Vec<(String, String)> {
+    let r = if let Some(h) = case.get("heavy_tree") {
+        let (expr, unique, ic) = (h["expr"].as_str().unwrap_or("").to_string(), h["unique"].as_bool().unwrap_or(false), h["ignore_case"].as_bool().unwrap_or(false));
+        let (limit, level) = (h["limit"].as_u64().unwrap_or(1), h["level"].as_u64());
+        on_own_thread(move || heavy_tree_point(&expr, unique, ic, limit, level))
+    } else if let Some(h) = case.get("heavy_router") {
+        let (expr, ic, limit) = (h["expr"].as_str().unwrap_or("").to_string(), h["ignore_case"].as_bool().unwrap_or(false), h["limit"].as_u64());
+        on_own_thread(move || heavy_router_point(&expr, ic, limit))
+    } else if let Some(t) = case.get("twin_routers") {
+        let order: Vec<usize> = serde_json::from_value(t["order"].clone()).unwrap_or_default();
+        on_own_thread(move || twin_router_run(&order))
+    } else {
+        Ok(vec![])
+    };
+    match r {
+        Ok(v) => v,
+        Err((loc, msg)) => vec![(format!("panic:{loc}"), msg)],
+    }
+}
+
 pub fn replay(case: &Value) -> Vec<String> {
+    if case.get("heavy_tree").is_some() || case.get("heavy_router").is_some() || case.get("twin_routers").is_some() {
+        return replay_extra(case).into_iter().map(|(s, _)| s).collect();
+    }
     if case.get("config").is_some() {
         c08::replay("C12", case)
     } else {
@@ -71,6 +299,10 @@ pub fn run(tier: Tier) -> i32 {
             "states_per_depth": st.states_per_depth, "probes_judged": model.match_calls.load(Ordering::Relaxed),
             "variants_per_state": "fresh, state, state.cache(n) and fresh.cache(n) for n in {None,0..3*|live|+2}, cache(1) twice, cache(1) then cache(None)"}));
     }
+    let (heavy_points, twin_points) = extra_passes(&ctx);
+    evaluations += heavy_points + twin_points;
+    runs.push(json!({"half": "heavy patterns", "expressions": HEAVY_EXPRS, "points": heavy_points, "what": "never-warmed vs warmed tree / router on expressions whose compiled program is large (on-the-fly and warm-up builds must agree)"}));
+    runs.push(json!({"half": "twin routers", "interleavings": twin_points, "script_per_router": c08::TWIN_SCRIPT, "what": "two routers differing only in ignore_path_and_query_case, same marker rules, every interleaving of the two scripts on a thread of its own; every answer compared with the router's own configuration"}));
     let mut cov = Coverage::new();
     cov.set("states", json!(states))
         .set("transitions", json!(transitions))
